@@ -22,22 +22,22 @@ SPEC = {
     'groups': [{
         'name': 'failable', 'wrapper': 'w15.cpp', 'harness': 'h15.c',
         'config': {'memleak': False, 'empty_regex': ['^_ZN[0-9]+[A-Za-z]*FailureC[12]E', '^_ZN10UtestShell5printEPKcS1_m$']},
-        'defines': ['-DKF_C15_1', '-DKF_C15_2'],
         'obligations': [
             ob('harness_fail_history', bounds=DES % 3 + 'then 4 allocations at symbolic locations, then checkAllFailedAllocsWereDone', timeout=600),
             ob('harness_fail_clear', bounds=DES % 3 + 'then 2 allocations, clearFailedAllocs (+ checkAll), one fresh symbolic designation, 2 more allocations, checkAll', timeout=600),
             ob('harness_fail_history', defines=['-DND=4', '-DNA=6'], tier='thorough', timeout=1800, bounds=DES % 4 + 'then 6 allocations at symbolic locations, then checkAllFailedAllocsWereDone'),
             ob('harness_fail_clear', defines=['-DND=4', '-DNA=6'], tier='thorough', timeout=1800, bounds=DES % 4 + 'then 2 allocations, clearFailedAllocs (+ checkAll), one fresh symbolic designation, 4 more allocations, checkAll'),
+            # open known finding KF-C15-2: the defect must still reproduce (expected to FAIL)
+            ob('finding_firing_skips_counting_of_earlier_designations', expect='fail', bounds='failNthAllocAt(2,L); failNthAllocAt(1,L); three allocations at L'),
         ],
     }, {
         'name': 'cstr', 'wrapper': 'w15.cpp', 'harness': 'h15s.c',
         'config': {'memleak': False, 'empty_regex': ['^_ZN[0-9]+[A-Za-z]*FailureC[12]E', '^_ZN10UtestShell5printEPKcS1_m$']},
-        'defines': ['-DKF_C15_3', '-DKF_C15_4'],
         'obligations': [
             ob('harness_malloc_oom', bounds='size 0..32, allocation failure symbolic'),
             ob('harness_strdup_oom', bounds='strings <= 3 bytes over the full byte range, allocation failure symbolic'),
             ob('harness_strndup_oom', bounds='strings <= 3 bytes over the full byte range, n any 64-bit value, allocation failure symbolic'),
-            ob('harness_calloc_oom', bounds='num, size any 64-bit values with (wrapped) product <= 16, allocation failure symbolic', unwind=18),
+        ] + [ob('harness_calloc_oom_%s' % k, bounds='calloc(num, %s): num any 64-bit value (block <= 16 bytes when the product fits), allocation failure symbolic' % k, unwind=18, timeout=600) for k in ('0', '1', '2', '3', '8', 'big', 'max')] + [
         ],
     }, {
         'name': 'countdown', 'wrapper': 'w15c.cpp', 'harness': 'h15c.c',
